@@ -274,6 +274,8 @@ def _inlinable(fn, force=False):
 
 
 def _simple_arg(e):
+    if isinstance(e, ast.Tuple) and all(isinstance(x, ast.Constant) for x in e.elts):
+        return True       # an immutable literal
     return isinstance(e, (ast.Name, ast.Constant, ast.Attribute)) or (
         isinstance(e, ast.Subscript) and isinstance(e.value, (ast.Name, ast.Attribute)) and isinstance(e.slice, (ast.Constant, ast.Name)))
 
@@ -421,7 +423,21 @@ def _expand(call, fn, is_method, counter, result_name):
     return pre + body
 
 
-def inline_helpers(tree, extern=None):
+_REFERENCE = [None]
+
+
+def _reference():
+    if _REFERENCE[0] is None:
+        import json as _json
+        import os as _os
+        try:
+            _REFERENCE[0] = _json.load(open(_os.path.join(_os.path.dirname(_os.path.abspath(__file__)), "api_reference.json")))
+        except (OSError, ValueError):
+            _REFERENCE[0] = {}
+    return _REFERENCE[0]
+
+
+def inline_helpers(tree, extern=None, modname=None):
     """inline private helpers into their callers, in place; returns the number of call sites expanded.
     extern: {local name: FunctionDef} private helpers imported from another lasio module"""
     helpers = {}
@@ -429,12 +445,17 @@ def inline_helpers(tree, extern=None):
     for nm, node in (extern or {}).items():
         if _inlinable(node, force=True):
             helpers[nm] = node
+    ref = _reference() if modname else {}
+
+    def is_new(q):
+        # a function that today's tree does not have is no anchor of any rule, whatever its name: it is expanded like a private helper
+        return bool(ref) and q not in ref
     for node in tree.body:
-        if isinstance(node, ast.FunctionDef) and _inlinable(node):
+        if isinstance(node, ast.FunctionDef) and _inlinable(node, force=is_new("%s.%s" % (modname, node.name))):
             helpers[node.name] = node
         elif isinstance(node, ast.ClassDef):
             for sub in node.body:
-                if isinstance(sub, ast.FunctionDef) and _inlinable(sub):
+                if isinstance(sub, ast.FunctionDef) and _inlinable(sub, force=is_new("%s.%s.%s" % (modname, node.name, sub.name))):
                     methods[(node.name, sub.name)] = sub
     if not helpers and not methods:
         return 0
@@ -677,6 +698,16 @@ def inline_simple_generators(tree, extern=None):
 
     def process(stmts, cls_name, self_fn):
         out = []
+        stmts = list(stmts)
+        # `g = _gen(..)` directly followed by `for .. in g:` (g used nowhere else): iterate the call itself
+        for i_ in range(len(stmts) - 1):
+            a_, b_ = stmts[i_], stmts[i_ + 1]
+            if isinstance(a_, ast.Assign) and len(a_.targets) == 1 and isinstance(a_.targets[0], ast.Name) and gen_call(a_.value, cls_name) \
+                    and isinstance(b_, ast.For) and isinstance(b_.iter, ast.Name) and b_.iter.id == a_.targets[0].id and self_fn is not None:
+                uses = [x for x in ast.walk(self_fn) if isinstance(x, ast.Name) and x.id == a_.targets[0].id]
+                if len(uses) == 2:
+                    b_.iter = a_.value
+                    stmts[i_] = ast.copy_location(ast.Pass(), a_)
         for st in stmts:
             for field in ("body", "orelse", "finalbody"):
                 blk = getattr(st, field, None)
@@ -698,6 +729,25 @@ def inline_simple_generators(tree, extern=None):
                         body = body or [ast.copy_location(ast.Pass(), st)]
 
                         def make(v, at, body=body, target=target):
+                            # `yield (a, b)` consumed by `for x, y in ..`: x and y are a and b (when the body does not re-bind them)
+                            tn = [target] if isinstance(target, ast.Name) else (list(target.elts) if isinstance(target, ast.Tuple) else None)
+                            vn = [v] if isinstance(target, ast.Name) else (list(v.elts) if isinstance(v, ast.Tuple) else None)
+                            if tn and vn and len(tn) == len(vn) and all(isinstance(t_, ast.Name) for t_ in tn) and all(isinstance(v_, ast.Name) for v_ in vn):
+                                tids = {t_.id for t_ in tn}
+                                rebinds = any(isinstance(x, ast.Name) and x.id in tids and isinstance(x.ctx, (ast.Store, ast.Del))
+                                              for s_ in body for x in ast.walk(s_))
+                                vids = {v_.id for v_ in vn}
+                                clobbers = any(isinstance(x, ast.Name) and x.id in vids and isinstance(x.ctx, (ast.Store, ast.Del))
+                                               for s_ in body for x in ast.walk(s_))
+                                if not rebinds and not clobbers:
+                                    m = {t_.id: v_.id for t_, v_ in zip(tn, vn)}
+
+                                    class RN(ast.NodeTransformer):
+                                        def visit_Name(self, node):
+                                            if node.id in m and isinstance(node.ctx, ast.Load):
+                                                return ast.copy_location(ast.Name(id=m[node.id], ctx=ast.Load()), node)
+                                            return node
+                                    return [RN().visit(s_) for s_ in copy.deepcopy(body)]
                             return [ast.copy_location(ast.Assign(targets=[copy.deepcopy(target)], value=v), at)] + copy.deepcopy(body)
                         loop.body = replace_yields(loop.body, make)
                         loop.orelse = st.orelse
@@ -2000,6 +2050,93 @@ def propagate_dict_copies(tree):
     return n
 
 
+def scalarize_local_dicts(tree):
+    """a local dict with constant string keys that is only ever read and written as `d["<key>"]` (never passed on, iterated or
+    measured) is a bundle of local variables: `d = {"a": x, ..}` / `dict(zip(("a",..), (x,..)))` / `dict(a=x, ..)` becomes
+    `d__a = x; ..` and `d["a"]` becomes `d__a`"""
+    n = 0
+    for fn in ast.walk(tree):
+        if not isinstance(fn, (ast.FunctionDef, ast.AsyncFunctionDef)):
+            continue
+        cands = {}
+        for st in ast.walk(fn):
+            if isinstance(st, ast.Assign) and len(st.targets) == 1 and isinstance(st.targets[0], ast.Name):
+                v = st.value
+                pairs = None
+                if isinstance(v, ast.Dict) and v.keys and all(isinstance(k, ast.Constant) and isinstance(k.value, str) for k in v.keys):
+                    pairs = [(k.value, x) for k, x in zip(v.keys, v.values)]
+                elif isinstance(v, ast.Call) and isinstance(v.func, ast.Name) and v.func.id == "dict" and not v.args and v.keywords \
+                        and all(k.arg for k in v.keywords):
+                    pairs = [(k.arg, k.value) for k in v.keywords]
+                elif isinstance(v, ast.Call) and isinstance(v.func, ast.Name) and v.func.id == "dict" and len(v.args) == 1 and not v.keywords \
+                        and isinstance(v.args[0], ast.Call) and isinstance(v.args[0].func, ast.Name) and v.args[0].func.id == "zip" \
+                        and len(v.args[0].args) == 2 and all(isinstance(a, (ast.Tuple, ast.List)) for a in v.args[0].args) \
+                        and len(v.args[0].args[0].elts) == len(v.args[0].args[1].elts) \
+                        and all(isinstance(k, ast.Constant) and isinstance(k.value, str) for k in v.args[0].args[0].elts):
+                    pairs = [(k.value, x) for k, x in zip(v.args[0].args[0].elts, v.args[0].args[1].elts)]
+                if pairs and len({k for k, _ in pairs}) == len(pairs) and all(k.isidentifier() for k, _ in pairs):
+                    cands.setdefault(st.targets[0].id, []).append((st, pairs))
+        for name, defs in cands.items():
+            if len(defs) != 1:
+                continue
+            st, pairs = defs[0]
+            keys = {k for k, _ in pairs}
+            names = [x for x in ast.walk(fn) if isinstance(x, ast.Name) and x.id == name]
+            subs = [x for x in ast.walk(fn) if isinstance(x, ast.Subscript) and isinstance(x.value, ast.Name) and x.value.id == name
+                    and isinstance(x.slice, ast.Constant) and x.slice.value in keys and not isinstance(x.ctx, ast.Del)]
+            if len(names) != len(subs) + 1:
+                continue
+            if any(isinstance(x, (ast.Global, ast.Nonlocal)) for x in ast.walk(fn)):
+                continue
+            if any(isinstance(x, (ast.FunctionDef, ast.Lambda)) and x is not fn and any(isinstance(y, ast.Name) and y.id == name for y in ast.walk(x))
+                   for x in ast.walk(fn)):
+                continue
+
+            class R(ast.NodeTransformer):
+                def visit_Subscript(self, node):
+                    if any(node is x for x in subs):
+                        return ast.copy_location(ast.Name(id="%s__%s" % (name, node.slice.value), ctx=node.ctx), node)
+                    return self.generic_visit(node)
+            R().visit(fn)
+            new = [ast.copy_location(ast.Assign(targets=[ast.Name(id="%s__%s" % (name, k), ctx=ast.Store())], value=v), st) for k, v in pairs]
+            # evaluation order of the values is kept; the statement list that holds `st` gets the new assignments
+            for holder in ast.walk(fn):
+                for fld in ("body", "orelse", "finalbody"):
+                    blk = getattr(holder, fld, None)
+                    if isinstance(blk, list) and any(x is st for x in blk):
+                        i = [k for k, x in enumerate(blk) if x is st][0]
+                        blk[i:i + 1] = new
+            n += 1
+    if n:
+        ast.fix_missing_locations(tree)
+    return n
+
+
+def lower_writerows(tree):
+    """`w.writerows(rows)` as a statement -> `for __row in rows: w.writerow(__row)` (what csv writers do)"""
+    n = [0]
+
+    def fn(stmts):
+        out = []
+        for st in stmts:
+            if isinstance(st, ast.Expr) and isinstance(st.value, ast.Call) and isinstance(st.value.func, ast.Attribute) \
+                    and st.value.func.attr == "writerows" and len(st.value.args) == 1 and not st.value.keywords \
+                    and isinstance(st.value.func.value, (ast.Name, ast.Attribute)):
+                n[0] += 1
+                nm = "__row%d" % n[0]
+                call = ast.Call(func=ast.Attribute(value=st.value.func.value, attr="writerow", ctx=ast.Load()),
+                                args=[ast.Name(id=nm, ctx=ast.Load())], keywords=[])
+                out.append(ast.copy_location(ast.For(target=ast.Name(id=nm, ctx=ast.Store()), iter=st.value.args[0],
+                                                     body=[ast.Expr(value=call)], orelse=[], type_comment=None), st))
+                continue
+            out.append(st)
+        return out
+    _map_blocks(tree, fn)
+    if n[0]:
+        ast.fix_missing_locations(tree)
+    return n[0]
+
+
 def split_multi_assign(tree):
     """`a, b = X, Y` (displays of equal length, no target read on the right) -> `a = X; b = Y`;
     `a = b = <constant>` -> `a = <constant>; b = <constant>`"""
@@ -2248,17 +2385,19 @@ def normalize(tree, extern=None, modname=None):
     stats = {"match": desugar_match(tree), "suppress": lower_suppress(tree), "walrus": lower_walrus_if(tree) + lower_walrus_while(tree)}
     stats["kwargs_dicts"] = expand_kwargs_dicts(tree)
     stats.update({"constants": propagate_constants(tree), "inlined": 0, "resugared": resugar_loops(tree)})
+    stats["writerows"] = lower_writerows(tree)
     stats["generators"] = inline_simple_generators(tree, extern)
     stats["found_flag"] = resugar_found_flag(tree)
     stats["closures"] = inline_local_closures(tree, modname)
     for _ in range(MAX_ROUNDS):
-        n = inline_helpers(tree, extern)
+        n = inline_helpers(tree, extern, modname)
         stats["inlined"] += n
         if not n:
             break
     stats["expr_inlined"] = inline_expression_helpers(tree, extern)
     stats["aliases"] = propagate_aliases(tree)
     stats["unrolled"] = unroll_constant_loops(tree)
+    stats["local_dicts"] = scalarize_local_dicts(tree)
     stats["getsetattr"] = lower_getsetattr(tree)
     stats["ifexp"] = lower_ifexp(tree)
     stats["sentinels"] = propagate_sentinels(tree)
@@ -2473,6 +2612,45 @@ def propagate_default_params(trees):
     return total
 
 
+def _const_truth(t):
+    """truth value of a test that does not depend on anything: True / False / None (unknown)"""
+    if isinstance(t, ast.Constant):
+        return bool(t.value)
+    if isinstance(t, (ast.Tuple, ast.List, ast.Set)):
+        return bool(t.elts) if all(not isinstance(e, ast.Starred) for e in t.elts) else None
+    if isinstance(t, ast.Dict):
+        return bool(t.keys) if all(k is not None for k in t.keys) else None
+    if isinstance(t, ast.UnaryOp) and isinstance(t.op, ast.Not):
+        v = _const_truth(t.operand)
+        return None if v is None else (not v)
+    if isinstance(t, ast.BoolOp):
+        decisive = isinstance(t.op, ast.Or)       # `or` is decided by a true member, `and` by a false one
+        for v_ in t.values:
+            v = _const_truth(v_)
+            if v is None:
+                if any(isinstance(x, ast.Call) for x in ast.walk(v_)):
+                    return None     # an earlier member with a call: it would still be evaluated
+                continue
+            if v == decisive:
+                return decisive
+        if all(_const_truth(v_) is not None for v_ in t.values):
+            return not decisive
+        return None
+    if isinstance(t, ast.Compare) and len(t.ops) == 1 and isinstance(t.left, ast.Constant) and isinstance(t.comparators[0], ast.Constant) \
+            and isinstance(t.ops[0], (ast.Is, ast.IsNot)) and (t.left.value is None or t.comparators[0].value is None):
+        same = t.left.value is t.comparators[0].value
+        return same if isinstance(t.ops[0], ast.Is) else not same
+    if isinstance(t, ast.Compare) and len(t.ops) == 1 and isinstance(t.left, ast.Constant) and isinstance(t.left.value, (str, int)) \
+            and not isinstance(t.left.value, bool):
+        r = t.comparators[0]
+        if isinstance(t.ops[0], (ast.Eq, ast.NotEq)) and isinstance(r, ast.Constant) and type(r.value) is type(t.left.value):
+            return (t.left.value == r.value) == isinstance(t.ops[0], ast.Eq)
+        if isinstance(t.ops[0], (ast.In, ast.NotIn)) and isinstance(r, (ast.Tuple, ast.List, ast.Set)) and all(
+                isinstance(e, ast.Constant) and type(e.value) is type(t.left.value) for e in r.elts):
+            return (t.left.value in [e.value for e in r.elts]) == isinstance(t.ops[0], ast.In)
+    return None
+
+
 def fold_constant_strings(tree):
     """`"a" + "b"` -> "ab"; `"%s.%s%s%s" % (x, y, " : ", z)` -> `"%s.%s : %s" % (x, y, z)` (plain %s placeholders only);
     f(*("a", 1)) -> f("a", 1); `if <literal>:` pruned"""
@@ -2505,12 +2683,10 @@ def fold_constant_strings(tree):
 
         def visit_IfExp(self, node):
             self.generic_visit(node)
-            t = node.test
-            if isinstance(t, ast.UnaryOp) and isinstance(t.op, ast.Not) and isinstance(t.operand, ast.Constant):
-                t = ast.Constant(value=not t.operand.value)
-            if isinstance(t, ast.Constant):
+            v = _const_truth(node.test)
+            if v is not None:
                 n[0] += 1
-                return node.body if t.value else node.orelse
+                return node.body if v else node.orelse
             return node
 
         def visit_Call(self, node):
@@ -2531,17 +2707,7 @@ def fold_constant_strings(tree):
         out = []
         for st in stmts:
             if isinstance(st, ast.If):
-                t = st.test
-                val = None
-                if isinstance(t, ast.Constant):
-                    val = bool(t.value)
-                elif isinstance(t, ast.Compare) and len(t.ops) == 1 and isinstance(t.left, ast.Constant) and isinstance(t.comparators[0], ast.Constant) \
-                        and isinstance(t.ops[0], (ast.Is, ast.IsNot)) and t.left.value is None or (
-                            isinstance(t, ast.Compare) and len(t.ops) == 1 and isinstance(t.left, ast.Constant)
-                            and isinstance(t.comparators[0], ast.Constant) and isinstance(t.ops[0], (ast.Is, ast.IsNot))
-                            and t.comparators[0].value is None):
-                    same = t.left.value is t.comparators[0].value
-                    val = same if isinstance(t.ops[0], ast.Is) else not same
+                val = _const_truth(st.test)
                 if val is not None:
                     n[0] += 1
                     out.extend(st.body if val else st.orelse)
